@@ -25,7 +25,9 @@ RULE = (
     "virtual durations (or only `await` once); 2-4 messages with distinct ids / args / labels delivered to the real "
     "Receiver.callback at generated virtual instants so that their executions overlap, the task body sleeps too; a "
     "user-supplied custom dependency context on the broker in half of the cases; in half of the cases one node is "
-    "replaced through broker.dependency_overrides by another generated dependency. Oracle: every echo made while "
+    "replaced through broker.dependency_overrides by another generated dependency; in half of the cases the task also takes "
+    "an annotated argument (a pydantic model accepting the scalar short form '1,2', the same wire value in every message), mutates it and reads it "
+    "back after its suspension. Oracle: every echo made while "
     "processing message i (attributed through a context variable set when its callback starts, inherited by every task it spawns) shows message i's id, argument "
     "and label; the result stored under id i is the value execution i returned. Non-trivial: >=2 executions overlap in "
     "virtual time and some Context-reading node is un-cached or below an un-cached node; distinct = canonical JSON."
@@ -53,6 +55,7 @@ def cases() -> Any:
         # among the existing nodes); the worker then rebuilds the dependency graph per execution
         "overrides": st.one_of(st.just([]), st.lists(st.fixed_dictionaries({"target": st.integers(0, n - 1), "node": node(n)}), min_size=1, max_size=1)),
         "cached_base": st.booleans(),
+        "box": st.booleans(),
     }).map(_sanitize))
 
 
@@ -94,6 +97,7 @@ def run_case(c: Dict[str, Any]) -> Outcome:
     loop.max_iterations = 100_000
     asyncio.set_event_loop(loop)
     echoes: Dict[Any, List[Any]] = {}
+    boxes: Dict[Any, List[Any]] = {}
     cur: Dict[Any, int] = {}
     spans: Dict[int, List[float]] = {}
 
@@ -101,6 +105,8 @@ def run_case(c: Dict[str, Any]) -> Outcome:
         k = EXEC.get()
         if kind == "echo":
             echoes.setdefault(k, []).append((node_, round(loop.time(), 6)) + payload)
+        elif kind == "box":
+            boxes.setdefault(k, []).append(payload[0])
 
     res: Dict[str, Any] = {}
 
@@ -111,7 +117,7 @@ def run_case(c: Dict[str, Any]) -> Outcome:
         b.result_backend = rb
         if c.get("custom_ctx"):
             b.add_dependency_context({Marker: Marker()})
-        mod, task, src = dg.build(nodes, tdeps, {"kind": "ret", "replacements": c.get("overrides") or []}, LOG)
+        mod, task, src = dg.build(nodes, tdeps, {"kind": "ret", "replacements": c.get("overrides") or [], "box": c.get("box")}, LOG)
         for ri, rep in enumerate(c.get("overrides") or []):
             b.dependency_overrides[getattr(mod, f"n{rep['target']}")] = getattr(mod, f"r{ri}")
         b.register_task(task, task_name="t")
@@ -121,7 +127,8 @@ def run_case(c: Dict[str, Any]) -> Outcome:
             if start:
                 await asyncio.sleep(start)
             EXEC.set(k)
-            m = b.formatter.dumps(AsyncKicker("t", b, {"who": f"w{k}"}).with_task_id(f"id{k}")._prepare_message(k, slp)).message
+            kw = {"box": "1,2"} if c.get("box") else {}     # the same wire value in every message
+            m = b.formatter.dumps(AsyncKicker("t", b, {"who": f"w{k}"}).with_task_id(f"id{k}")._prepare_message(k, slp, **kw)).message
             spans[k] = [loop.time(), None]
             await r.callback(m)
             spans[k][1] = loop.time()
@@ -155,6 +162,11 @@ def run_case(c: Dict[str, Any]) -> Outcome:
             elif (tid, a0, who) != (f"id{k}", k, f"w{k}"):
                 out.add("C06.a", f"while processing message id{k} (arg {k}, label w{k}) at t={t}, node {node_} observed Context of "
                                  f"message {tid!r} (arg {a0!r}, label {who!r})")
+    for k, seen_boxes in sorted(boxes.items(), key=lambda kv: str(kv[0])):
+        for bx in seen_boxes:
+            if bx != [1, 2, k]:
+                out.add("C06.a", f"execution of message id{k} appended its own id to its list argument (sent in the short form '1,2') and later "
+                                 f"observed {bx}: the argument object is shared with another execution")
     stored: Dict[str, List[Any]] = {}
     for tid, is_err, rv, en in res.get("results", []):
         stored.setdefault(tid, []).append((is_err, rv, en))
